@@ -20,6 +20,13 @@
 (* and the observed state is adopted so that validation goes on. Concurrent   *)
 (* parts (Call/Ret events of several goroutines, one observation at rest) are *)
 (* judged by schedule-independent facts only.                                 *)
+(* A Tick event is one run of the box's own ticker (Ballotbox.Start with a    *)
+(* short interval, the holds expired, Stop): held records are counted by      *)
+(* countHoldeds. Whether a record is held is not observable, so a Tick - like  *)
+(* every other call - is judged by what it emitted: sound (CheckVP) and, for   *)
+(* every call kind, for a stage point the box was voting on when the voteproof *)
+(* was emitted (CheckNew: new with respect to the last point as it stood       *)
+(* before the call or after an earlier voteproof of the same call).            *)
 EXTENDS Ballotbox
 
 Trace == ndJsonDeserialize("trace.ndjson")
@@ -50,7 +57,8 @@ Obs ==
       recs |-> [k \in K |-> R[CHOOSE i \in I : OKey(R[i]) = k].id],
       ids  |-> D,
       obj  |-> [id \in D |-> LET e == R[CHOOSE i \in I : R[i].id = id] IN
-                             [sp |-> [h |-> e.h, r |-> e.r, s |-> e.s], isc |-> e.sc, votes |-> VotesOf(e.votes), fin |-> e.fin]],
+                             [sp |-> [h |-> e.h, r |-> e.r, s |-> e.s], isc |-> e.sc, votes |-> VotesOf(e.votes), fin |-> e.fin,
+                              held |-> FALSE]],
       removed |-> {Ev.removed[i].id : i \in 1..Len(Ev.removed)},
       pd |-> [id \in {Ev.pd[i][1] : i \in 1..Len(Ev.pd)} |-> Ev.pd[CHOOSE i \in 1..Len(Ev.pd) : Ev.pd[i][1] = id][2]]]
 ObsIdOf(O, k) ==    \* the object the box holds (or has just released) for key k; unknown: a unique negative number
@@ -92,6 +100,23 @@ CheckVP(v, m, hd) ==
   /\ Expect("C04-recount", RecountOK(v), info)
   /\ Expect("C04-result-not-final", v.res \in {"MAJORITY", "DRAW"}, info)
 
+(* C04 (i), "a stage point it was voting on": a counted voteproof is for a stage  *)
+(* point (and flag) that is new with respect to the last point of the box at the  *)
+(* moment it is emitted. L: the last points the box can have had at that moment.  *)
+(* Alarm: the weaker reading (new as a ballot or new as a voteproof of that       *)
+(* record); the stronger one (the box would still accept a ballot for the point)  *)
+(* and the newness of forwarded voteproofs are reported only (X-).                *)
+LastOfVP(v) == [h |-> v.h, r |-> v.r, s |-> v.s, maj |-> v.res = "MAJORITY", sc |-> v.sc]
+VPFlag(v) == IF Len(v.sfs) > 0 THEN v.sfs[1].sc ELSE FALSE
+NewFor(L, v, flag) == \/ VotingOn(L, [h |-> v.h, r |-> v.r, s |-> v.s], flag)
+                      \/ IsNewVPForRecord(flag, L, [h |-> v.h, r |-> v.r, s |-> v.s], v.res = "MAJORITY", v.sc)
+CheckNew(v, Ls) ==
+  LET info == <<v.h, v.r, v.s>> IN
+  IF v.fwd = ""
+  THEN /\ Expect("C04-point-not-new", \E L \in Ls : NewFor(L, v, VPFlag(v)), info)
+       /\ Expect("X-point-not-voting-on", \E L \in Ls : VotingOn(L, [h |-> v.h, r |-> v.r, s |-> v.s], VPFlag(v)), info)
+  ELSE Expect("X-forwarded-not-new", \E L \in Ls : \E flag \in BOOLEAN : NewFor(L, v, flag), info)
+
 (* ------------------------------------------------ the step every call shares *)
 (* S: the box after the call itself (before the count it triggers):            *)
 (*    [recs, robj, pool, gen, mat]; cleans: did a clean cycle run - it does    *)
@@ -113,6 +138,9 @@ Settle(O, S, hd, cleans) ==
   IN
   (* C04: every voteproof read from the channel *)
   /\ \A i \in 1..Len(Ev.vps) : CheckVP(Ev.vps[i], S.mat, hd)
+  /\ \A i \in 1..Len(Ev.vps) :
+        CheckNew(Ev.vps[i], {last} \cup {LastOfVP(Ev.vps[j]) : j \in 1..(i - 1)}
+                                   \cup (IF Ev.a = "SetLast" /\ Ev.ret THEN {LPOf(Ev)} ELSE {}))
   /\ Expect("C04-last-not-from-voteproof",
             last2 = last \/ (Ev.a = "SetLast" /\ Ev.ret) \/
             \E i \in 1..Len(Ev.vps) : LET v == Ev.vps[i] IN SPOf(last2) = SP3(v) /\ last2.maj = (v.res = "MAJORITY"),
@@ -153,7 +181,7 @@ Settle(O, S, hd, cleans) ==
   /\ gen' = S.gen
   /\ mat' = [k \in OKeys |-> IF k \in DOMAIN emat THEN emat[k] ELSE OObj[ORecs[k]].votes]
 
-Unch == UNCHANGED <<Node, Local, T10, chan, cleaning, nvotes, nset, step, dead, acc, calls, setlast>>
+Unch == UNCHANGED <<Node, Local, T10, chan, cleaning, nvotes, nset, nticks, step, dead, acc, calls, setlast>>
 Pre == [recs |-> recs, robj |-> robj, pool |-> pool, gen |-> gen, mat |-> mat]
 
 (* the effect of Vote(b) itself on the records, the result taken from the log  *)
@@ -163,7 +191,7 @@ VoteState(O, S, b, voted, needNew) ==
       v == VoteOf(b)
   IN IF needNew
      THEN [recs |-> (k :> id) @@ S.recs,
-           robj |-> (id :> [sp |-> SPOf(b), isc |-> b.sc, votes |-> IF voted THEN {v} ELSE {}, fin |-> FALSE]) @@ S.robj,
+           robj |-> (id :> [sp |-> SPOf(b), isc |-> b.sc, votes |-> IF voted THEN {v} ELSE {}, fin |-> FALSE, held |-> FALSE]) @@ S.robj,
            pool |-> Dec(S.pool, id), gen |-> Inc(S.gen, id),
            mat |-> (k :> IF voted THEN {v} ELSE {}) @@ S.mat]
      ELSE IF voted /\ k \in DOMAIN S.recs
@@ -201,6 +229,12 @@ TSetLast ==
   /\ LET O == Obs IN Settle(O, Pre, handed, Len(Ev.vps) > 0)
   /\ UNCHANGED handed /\ Unch
 
+(* the ticker ran (countHoldeds): no clean cycle, the last point does not move  *)
+TTick ==
+  /\ Consume /\ Ev.a = "Tick"
+  /\ LET O == Obs IN Settle(O, Pre, handed, FALSE)
+  /\ UNCHANGED handed /\ Unch
+
 (* C05 a: the reads depend on the ballots accepted for the stage point only    *)
 TVoted ==
   /\ Consume /\ Ev.a = "Voted"
@@ -236,7 +270,7 @@ TReset ==
        /\ puts' = Restrict(puts, keep \cap DOMAIN puts)
        /\ gen' = Restrict(gen, keep \cap DOMAIN gen)
   /\ dead' = {}
-  /\ UNCHANGED <<chan, cleaning, nvotes, nset, step>>
+  /\ UNCHANGED <<chan, cleaning, nvotes, nset, nticks, step>>
 
 (* ----------------------------------------------------------- concurrent part *)
 TCall ==
@@ -245,6 +279,7 @@ TCall ==
   /\ handed' = IF Ev.op = "Vote" /\ Ev.evp.name # "" THEN handed \cup {Ev.evp.name} ELSE handed
   /\ setlast' = (setlast \/ Ev.op = "SetLast")
   /\ UNCHANGED <<vars, dead, acc>>
+CallLasts == {LPOf(calls[c]) : c \in {d \in DOMAIN calls : calls[d].op = "SetLast"}}
 TRet ==
   /\ Consume /\ Ev.a = "Ret"
   /\ Expect("X-call-error", Ev.err = "" /\ Ev.panic = "", Ev.c)
@@ -269,6 +304,10 @@ TQuiet ==
          fresh == OIds \ (DOMAIN gen)
          stale(k) == Passed(last2, k.sp) /\ OObj[ORecs[k]].votes # {} /\ ~setlast /\ Len(Ev.vps) > 0
      IN /\ \A i \in 1..Len(Ev.vps) : CheckVP(Ev.vps[i], m, handed)
+        (* whatever the schedule was, the last point was the one before the concurrent part, that of a voteproof *)
+        (* emitted meanwhile or one a thread set                                                              *)
+        /\ \A i \in 1..Len(Ev.vps) :
+              CheckNew(Ev.vps[i], {last} \cup {LastOfVP(Ev.vps[j]) : j \in 1..Len(Ev.vps)} \cup CallLasts)
         /\ Expect("C05-votes-differ", \A k \in OKeys : OObj[ORecs[k]].votes \subseteq AccAll(k),
                   LET k == CHOOSE k \in OKeys : ~(OObj[ORecs[k]].votes \subseteq AccAll(k)) IN <<k.p, k.sp.h, k.sp.r, k.sp.s>>)
         /\ Expect("C05-sf-record-not-removed", ~\E k \in OKeys : KeyIsSC(k) /\ stale(k),
@@ -290,12 +329,12 @@ TQuiet ==
                      Get(puts2, i) + IF i \in OIds \cup ORemoved \/ i \in dead THEN 1 ELSE 0]
         /\ pool' = [i \in DOMAIN puts2 |-> IF i \in OIds \cup ORemoved \/ i \in dead THEN 0 ELSE 1]
         /\ mat' = [k \in OKeys |-> OObj[ORecs[k]].votes]
-  /\ UNCHANGED <<Node, Local, T10, chan, cleaning, nvotes, nset, step, handed, dead, acc, calls, setlast>>
+  /\ UNCHANGED <<Node, Local, T10, chan, cleaning, nvotes, nset, nticks, step, handed, dead, acc, calls, setlast>>
 
 TraceInit ==
   /\ Init
   /\ l = 1 /\ handed = {} /\ dead = {} /\ acc = <<>> /\ calls = <<>> /\ setlast = FALSE
-TraceNext == TReset \/ TVote \/ TCount \/ TSetLast \/ TVoted \/ TMissing \/ TCall \/ TRet \/ TQuiet
+TraceNext == TReset \/ TVote \/ TCount \/ TSetLast \/ TTick \/ TVoted \/ TMissing \/ TCall \/ TRet \/ TQuiet
 TraceSpec == TraceInit /\ [][TraceNext]_tvars
 
 ASSUME TLCSet(1, 0)
